@@ -354,7 +354,7 @@ func instEcalli(interp *Interpreter, pc ProgramCounter, skipLength ProgramCounte
 	lX := min(4, int(skipLength))
 
 	// zeta_{iota+1,...,lX}
-	instLength := interp.Program.InstructionData[pc+1 : pc+ProgramCounter(lX)+1]
+	instLength := codeSlice(interp.Program.InstructionData, pc+1, pc+ProgramCounter(lX)+1)
 	x, err := utils.DeserializeFixedLength(types.ByteSequence(instLength), types.U64(lX))
 	if err != nil {
 		pvmLogger.Errorf("instEcalli deserialization error: %v", err)
@@ -371,9 +371,9 @@ func instEcalli(interp *Interpreter, pc ProgramCounter, skipLength ProgramCounte
 
 // opcode 20
 func instLoadImm64(interp *Interpreter, pc ProgramCounter, skipLength ProgramCounter) (ExitReason, ProgramCounter) {
-	rA := min(12, (int(interp.Program.InstructionData[pc+1]) % 16))
+	rA := min(12, (int(codeAt(interp.Program.InstructionData, pc+1)) % 16))
 	// zeta_{iota+2,...,+8}
-	instLength := interp.Program.InstructionData[pc+2 : pc+10]
+	instLength := codeSlice(interp.Program.InstructionData, pc+2, pc+10)
 	nuX, err := utils.DeserializeFixedLength(types.ByteSequence(instLength), types.U64(8))
 	if err != nil {
 		pvmLogger.Errorf("insLoadImm64 deserialization raise error: %v", err)
